@@ -114,6 +114,62 @@ def norm_product(n):
     return [ast.unparse(n)], []
 
 
+def mentions(v, what) -> bool:
+    """value `what` occurs inside the (nested tuple) value v"""
+    if v == what:
+        return True
+    if isinstance(v, tuple):
+        return any(mentions(x, what) for x in v)
+    return False
+
+
+def wait_records(pa):
+    """the suspension points of a path in order: ('timeout', duration value, event) / ('event', awaited value, event) / ('except', exc, event)"""
+    args_of = {}
+    out = []
+    for e in pa.events:
+        if e.kind == 'xcall' and e.name.endswith('.timeout') and e.args:
+            args_of[e.result] = e.args[0]
+        elif e.kind == 'yield':
+            if e.cls == 'timeout':
+                out.append(('timeout', args_of.get(e.value), e))
+            else:
+                out.append(('event', e.value, e))
+        elif e.kind == 'except':
+            out.append(('except', e.exc, e))
+        elif e.kind == 'cond' and not e.polarity and e.d.get('operands') and e.operands[0] == 'Gt' and e.operands[2] == ('const', 0) \
+                and e.operands[1] is not None and e.operands[1][0] not in ('lin', 'const'):
+            out.append(('skipped', e.operands[1], e))      # `while remaining > 0` not entered: remaining <= 0 is waited "in full" 
+        elif e.kind == 'op' and e.list == 'ready_items' and e.op in ('append', 'insert'):
+            out.append(('ready', e.val, e))
+    return out
+
+
+def move_paths(p, s):
+    fi = s.methods['move_to_ready_items']
+    ex = paths.Explorer(p, s.ci.key, tracked=set(s.lists), atomic=set(tables.TRIGGERS), unroll=2, process_loop_once=False)
+    return fi, ex.paths(fi)
+
+
+def show_num(v):
+    f = paths.Explorer.num_of(v)
+    if f is None:
+        return repr(v)
+    def one(k):
+        if k == ('one',):
+            return '1'
+        if k[0] == 'now':
+            return f'now@{k[1]}'
+        if k[0] == 'sub' and k[1][0] == 'param':
+            return f'{k[1][1]}[{k[2][1]}]'
+        if k[0] == 'expr':
+            return f'({k[1]})'
+        if k[0] in ('self', 'param'):
+            return k[1]
+        return str(k)[:40]
+    return ' '.join((('+' if c > 0 else '-') + ('' if abs(c) == 1 else str(abs(c)) + '·') + one(k)) for k, c in f.items()) or '0'
+
+
 def check_delay(p, r):
     for ci in tables.edge_classes(p):
         if ci.name != 'ConveyorBelt':
@@ -124,56 +180,50 @@ def check_delay(p, r):
             r.fail('C12.R2', key, 'put missing', src(ci.module), ci.node.lineno)
             continue
         r.analysed_functions.add(fi.key)
+        attr, skeys = tables.edge_store_attr(p, ci)
         continuous = 'speed' in [a.arg for a in ci.methods['__init__'].node.args.args]
-        want = (['self.capacity', 'self.length'], ['self.speed']) if continuous else (['self.capacity', 'self.delay'], [])
-        delay_assign = None
-        stamp = None
-        tup = None
-        putcall = None
+        S = lambda a: ('self', a)
+        want = ('prod', 1, tuple(sorted([S('capacity'), S('length')], key=repr)), (S('speed'),)) if continuous else \
+            ('prod', 1, tuple(sorted([S('capacity'), S('delay')], key=repr)), ())
         item_par = [a.arg for a in fi.node.args.args if a.arg != 'self'][1]
-        for n in walk_no_nested(fi.node):
-            if isinstance(n, ast.Assign) and len(n.targets) == 1:
-                t = ast.unparse(n.targets[0])
-                if t == 'delay':
-                    delay_assign = n
-                if t == f'{item_par}.conveyor_entry_time':
-                    stamp = n
-                if isinstance(n.value, ast.Tuple) and len(n.value.elts) == 2:
-                    tup = n
-            if isinstance(n, ast.Call) and ast.unparse(n.func) == 'self.belt.put':
-                putcall = n
+        ex = paths.Explorer(p, ci.key, tracked=set(), proto={'put', 'handle_new_item_during_interruption'}, unroll=1)
         why = None
-        if delay_assign is None:
-            why = 'no `delay = ...` in put'
+        why3 = None
+        n = 0
+        bad = None
+        for pa in ex.paths(fi):
+            if pa.raises:
+                continue
+            n += 1
+            puts = [e for e in pa.events if e.kind == 'pcall' and e.name == 'put' and e.recv == f'self.{attr}']
+            if len(puts) != 1:
+                why, bad = f'{len(puts)} hand-overs to the belt store on a completing path (expected exactly 1)', pa
+                continue
+            pc = puts[0]
+            arg = pc.args[1] if len(pc.args) > 1 else None
+            if not (arg and arg[0] == 'tuple' and len(arg[1]) == 2 and arg[1][0] == ('param', item_par)):
+                why, bad = 'the store does not receive (item, delay)', pa
+                continue
+            d = arg[1][1]
+            if d != want:
+                why, bad = (f'the travel delay handed to the belt is not ' + ('item_length·capacity/speed' if continuous else 'capacity·slot delay') + f' (got {show_num(d)})'), pa
+            if mentions(d, ('param', item_par)):
+                why3 = 'the travel delay depends on the individual item: a later, faster item can overtake an earlier one'
+            stamps = [e for e in pa.events if e.kind == 'setattr' and e.attr == 'conveyor_entry_time' and e.target.split('.')[0] == item_par]
+            idx = pa.events.index(pc)
+            before = [e for e in stamps if pa.events.index(e) < idx]
+            if not before or before[-1].value[0] != 'now':
+                why = why or 'conveyor_entry_time is not stamped with env.now before the item is handed to the belt'
+                bad = bad or pa
+        if n == 0:
+            why = 'no completing path in put'
+        if why:
+            r.fail('C12.R2', key, why, src(fi.module), fi.node.lineno, bad.describe() if bad else None)
         else:
-            got = norm_product(delay_assign.value)
-            if (got[0], got[1]) != (sorted(want[0]), sorted(want[1])):
-                why = f'travel delay is `{ast.unparse(delay_assign.value)}`, expected ' + ('item_length·capacity/speed' if continuous else 'capacity·slot delay')
-        if stamp is None or ast.unparse(stamp.value) != 'self.env.now':
-            why = why or 'conveyor_entry_time is not stamped with env.now in put'
-        if putcall is None:
-            why = why or 'the item is not handed to the belt store'
-        else:
-            arg = putcall.args[1] if len(putcall.args) > 1 else None
-            elts = None
-            if isinstance(arg, ast.Tuple):
-                elts = arg.elts
-            elif isinstance(arg, ast.Name) and tup is not None and ast.unparse(tup.targets[0]) == arg.id:
-                elts = tup.value.elts
-            if not (elts and ast.unparse(elts[0]) == item_par and ast.unparse(elts[1]) == 'delay'):
-                why = why or 'the store does not receive (item, delay)'
-            if stamp is not None and stamp.lineno > putcall.lineno:
-                why = why or 'the entry time is stamped after the item was handed to the belt'
-        (r.ok if not why else r.fail)('C12.R2', key, 'delay by the documented formula, entry stamped, (item, delay) stored' if not why else why,
-                                      src(fi.module), fi.node.lineno)
-        # R3 independence of the item: the delay expression mentions only attributes of the edge
+            r.ok('C12.R2', key, 'delay by the documented formula, entry stamped with the clock before the hand-over, (item, delay) stored', src(fi.module), fi.node.lineno)
         k3 = f'{fi.key}::delay-independent-of-item'
-        if delay_assign is not None:
-            uses_item = any(isinstance(x, ast.Name) and x.id == item_par for x in ast.walk(delay_assign.value))
-            (r.ok if not uses_item else r.fail)('C12.R3', k3, 'same travel delay for every item of the belt' if not uses_item else
-                                                'the travel delay depends on the individual item: a later, faster item can overtake an earlier one',
-                                                src(fi.module), delay_assign.lineno)
-    # two-phase wait sums to the delay and is waited in full
+        (r.ok if not why3 else r.fail)('C12.R3', k3, 'same travel delay for every item of the belt' if not why3 else why3, src(fi.module), fi.node.lineno)
+    # the travel delay stored with the item is waited in full before the item becomes ready
     seen = set()
     for s in belt_store_classes(p):
         fi = s.methods['move_to_ready_items']
@@ -183,30 +233,37 @@ def check_delay(p, r):
         r.analysed_functions.add(fi.key)
         key = f'{fi.key}::two-phase-travel-sums-to-delay'
         par = [a.arg for a in fi.node.args.args if a.arg != 'self'][0]
-        txt = {ast.unparse(n.targets[0]): ast.unparse(n.value).replace(' ', '') for n in walk_no_nested(fi.node)
-               if isinstance(n, ast.Assign) and len(n.targets) == 1 and isinstance(n.targets[0], ast.Name)}
-        why = None
-        p1, p2 = txt.get('phase1_time'), txt.get('phase2_time')
-        if p1 is None or p2 is None:
-            why = 'phase1_time / phase2_time not found'
+        want = {('sub', ('param', par), ('const', 1)): 1}
+        _, pas = move_paths(p, s)
+        n = 0
+        why = bad = None
+        for pa in pas:
+            recs = wait_records(pa)
+            if not any(k == 'ready' for k, _, _ in recs) or any(k == 'except' for k, _, _ in recs):
+                continue
+            r.paths += 1
+            n += 1
+            tot = {}
+            unknown = False
+            for k, v, e in recs:
+                if k == 'ready':
+                    break
+                if k in ('timeout', 'skipped'):
+                    f = paths.Explorer.num_of(v)
+                    if f is None:
+                        unknown = True
+                        continue
+                    for a, c in f.items():
+                        tot[a] = tot.get(a, 0) + c
+                        if tot[a] == 0:
+                            del tot[a]
+            if unknown or tot != want:
+                why = (f'on an undisturbed belt the timed waits before the item becomes ready add up to `{show_num(("num", tuple(tot.items())))}`, '
+                       f'not to the travel delay stored with the item ({par}[1])')
+                bad = pa
+        if n == 0:
+            why = 'no undisturbed path from the start of the move process to the ready list'
+        if why:
+            r.fail('C12.R2', key, why, src(fi.module), fi.node.lineno, bad.describe() if bad else None)
         else:
-            if p2 != f'{par}[1]-phase1_time':
-                why = f'phase 2 is `{p2}`, expected {par}[1] − phase1_time (the two phases must add up to the stored delay)'
-            if p1 not in (f'{par}[0].length/self.speed', 'self.delay'):
-                why = why or f'phase 1 is `{p1}`, expected one item length of travel'
-            if txt.get('remaining_phase1_time') is None or txt.get('remaining_phase2_time') is None:
-                why = why or 'the remaining-time variables of the two phases are missing'
-        # each phase is waited in a `while remaining > 0` loop on `timeout(remaining)`, starting from the phase time
-        for k in ('1', '2'):
-            rem = f'remaining_phase{k}_time'
-            if txt.get(rem) is not None and txt.get(rem) not in (f'phase{k}_time',) and txt.get(rem) != '0':
-                pass
-            inits = [n for n in walk_no_nested(fi.node) if isinstance(n, ast.Assign) and len(n.targets) == 1 and ast.unparse(n.targets[0]) == rem
-                     and ast.unparse(n.value) == f'phase{k}_time']
-            loops = [n for n in walk_no_nested(fi.node) if isinstance(n, ast.While) and ast.unparse(n.test).replace(' ', '') == f'{rem}>0']
-            waits = [y for lp in loops for y in ast.walk(lp) if isinstance(y, ast.Yield) and y.value is not None
-                     and ast.unparse(y.value).replace(' ', '') == f'self.env.timeout({rem})']
-            if not inits or not loops or not waits:
-                why = why or f'phase {k} is not waited in full (`{rem} = phase{k}_time; while {rem} > 0: yield timeout({rem})` not found)'
-        (r.ok if not why else r.fail)('C12.R2', key, 'phase 1 = one item length, phase 2 = delay − phase 1, both waited' if not why else why,
-                                      src(fi.module), fi.node.lineno)
+            r.ok('C12.R2', key, f'the waits of every undisturbed path add up to {par}[1] ({n} path(s))', src(fi.module), fi.node.lineno)
